@@ -229,7 +229,7 @@ def emit() -> str:
     cfg = class_def(class_def(parse(ACTIONS), "ACLAddRuleAbstractAction"), "ConfigSchema")
     out.append(_pairs("actionFieldTypes", "`ACLAddRuleAbstractAction.ConfigSchema`: declaration of the protocol / port fields",
                       _ann(cfg, ["protocol_name", "src_port", "dst_port"])))
-    # the literal each field of the action schema admits besides its type (`Union[T, Literal["X"]]` → X)
+    # the literal each field of the action schema allows besides its type (`Union[T, Literal["X"]]` → X)
     sent = []
     for n in cfg.body:
         if isinstance(n, ast.AnnAssign) and isinstance(n.target, ast.Name):
@@ -238,7 +238,7 @@ def emit() -> str:
             if isinstance(a, ast.Subscript) and ast.unparse(a.value) == "Union" and len(lits) == 1:
                 _need(isinstance(lits[0].slice, ast.Constant) and isinstance(lits[0].slice.value, str), f"{n.target.id}: one string literal")
                 sent.append((n.target.id, lits[0].slice.value))
-    out.append(_pairs("actionSentinels", "`ACLAddRuleAbstractAction.ConfigSchema`: field ↦ the literal it admits besides its type", sent))
+    out.append(_pairs("actionSentinels", "`ACLAddRuleAbstractAction.ConfigSchema`: field ↦ the literal it allows besides its type", sent))
     # the two concrete schemas must not redeclare them
     for cname in ("RouterACLAddRuleAction", "FirewallACLAddRuleAction"):
         sub = class_def(class_def(parse(ACTIONS), cname), "ConfigSchema")
